@@ -3,9 +3,20 @@
      value   = ( xn ) | ( xs <str> ) | ( xb <str> ) | ( xi <int> )        (tags "n" "s" "b" "i")
      message = ( ( ) | ( <type> )   ( ( <key> value ) ... ) )
      call    = ( <name> args... )      iter_open takes xt (text) or xb (bytes), iter_step / iter_close the generator's number
-   observation line:  ( cs aps )  then per call ( outcome ( event ... ) cs aps ) *)
+   observation line:  ( cs aps )  then per call ( outcome ( event ... ) cs aps )
+
+   the denial response and the shortcuts (C11/Denial.v):
+   case line:   xdenial <scope type> ext ( ) | ( ( action ... ) raises )  ( script )
+                xrr     <scope type> ext ( ( action ... ) raises )        ( script )
+                xws     <scope type> ( script ) ( calls )
+     ext     = 0 (no "extensions" key) | 1 (a mapping without the key) | 2 (with "websocket.http.response")
+     action  = ( xs message catches ) | ( xr )
+   observation line:  denial:  outcome ( event ... ) <script messages left>
+                      rr:      <view called 0/1> outcome ( event ... ) <left>
+                      ws:      xhttp outcome ( event ... ) <left>  |  xsession ( cs aps ) ( outcome ( event ... ) cs aps ) ...  |  xassert
+     event   = ( xr ) | ( xr message ) | ( xf message ) | ( xg message ) *)
 From Coq Require Import List NArith ZArith Bool.
-From Baize Require Import Lib.Wire C11.Model.
+From Baize Require Import Lib.Wire C11.Model C11.Denial.
 Import ListNotations.
 
 Definition rd_value (x : sx) : value :=
@@ -118,10 +129,91 @@ Fixpoint run_calls (s : st) (sc : list msg) (calls : list sx) : list sx :=
       end
   end.
 
+(* ---------- the denial response and the shortcuts ---------- *)
+
+Definition rd_action (x : sx) : action :=
+  match x with
+  | Lst [Str _; m; Num c] => ASend (rd_msg m) (negb (Z.eqb c 0))
+  | _ => ARecv
+  end.
+
+Definition rd_inner (x : sx) : option inner :=
+  match x with
+  | Lst [Lst a; Num r] => Some (Inner (map rd_action a) (negb (Z.eqb r 0)))
+  | _ => None
+  end.
+
+Definition rd_ext (x : sx) : ext :=
+  match x with
+  | Num 1%Z => ExtEmpty
+  | Num 2%Z => ExtOffered
+  | _ => ExtNoKey
+  end.
+
+Fixpoint rd_calls (l : list sx) : option (list call) :=
+  match l with
+  | [] => Some []
+  | x :: r =>
+      match rd_call x, rd_calls r with
+      | Some c, Some cs => Some (c :: cs)
+      | _, _ => None
+      end
+  end.
+
+Definition show_dout (o : dout) : sx :=
+  match o with
+  | DReturned => Lst [tag (lit "ok")]
+  | DExn e => show_exn e
+  | DValueError t => Lst [tag (lit "exc"); tag (lit "ValueError"); Str (lit "Unsupported message type: " ++ t)]
+  | DInnerRaised => Lst [tag (lit "exc"); tag (lit "Inner")]
+  end.
+
+Definition show_dev (e : dev) : sx :=
+  match e with
+  | DRecv None => Lst [tag (lit "r")]
+  | DRecv (Some m) => Lst [tag (lit "r"); show_msg m]
+  | DFwd m => Lst [tag (lit "f"); show_msg m]
+  | DGot m => Lst [tag (lit "g"); show_msg m]
+  end.
+
+Definition show_result (r : result) : list sx :=
+  match r with
+  | (o, rest, tr) => [show_dout o; Lst (map show_dev tr); Num (Z.of_nat (length rest))]
+  end.
+
+Definition show_obs (o : obs) : sx :=
+  Lst (show_outcome (o_out o) :: Lst (map show_ev (o_trace o)) :: show_st (o_after o)).
+
+Definition show_ws (r : ws_result) : list sx :=
+  match r with
+  | WsHttp x => tag (lit "http") :: show_result x
+  | WsSession (os, _, _) => tag (lit "session") :: Lst (show_st init) :: map show_obs os
+  | WsAssert => [tag (lit "assert")]
+  end.
+
+Definition bad : list sx := [tag (lit "badcase")].
+
 Definition run_case (c : list sx) : list sx :=
   match c with
   | [Lst script; Lst calls] => Lst (show_st init) :: run_calls init (map rd_msg script) calls
-  | _ => [tag (lit "badcase")]
+  | [Str k; Str stype; e; r; Lst script] =>
+      if str_eqb k (lit "denial")
+      then show_result (denial stype (rd_inner r) (rd_ext e) (map rd_msg script))
+      else if str_eqb k (lit "rr")
+      then match rd_inner r with
+           | Some v => Num (if rr_view_called stype then 1 else 0)
+                       :: show_result (request_response stype (rd_ext e) v (map rd_msg script))
+           | None => bad
+           end
+      else bad
+  | [Str k; Str stype; Lst script; Lst calls] =>
+      if str_eqb k (lit "ws")
+      then match rd_calls calls with
+           | Some cs => show_ws (websocket_session stype cs (map rd_msg script))
+           | None => bad
+           end
+      else bad
+  | _ => bad
   end.
 
 Definition run_line (l : list N) : list N := print_line (run_case (parse_line l)).
